@@ -383,6 +383,12 @@ func genStratSpec(rng *rand.Rand, depth int, allowDefault bool) SubSpec {
 	case "decorator.StopLoss":
 		s.Pct = []float64{0.01, 0.05, 0.2, 1, 2}[rng.Intn(5)] // 1 and 2: a stop that can never trigger
 	}
+	if strings.HasPrefix(name, "decorator.") && depth+1 < maxNest() && rng.Intn(5) == 0 {
+		// the same decorator twice: Inverse(Inverse(x)), NoLoss(NoLoss(x)) ...
+		inner := SubSpec{Entity: name, Pct: s.Pct, Subs: []SubSpec{genBaseSpec(rng, allowDefault)}}
+		s.Subs = []SubSpec{inner}
+		return s
+	}
 	for i := 0; i < n; i++ {
 		if depth+1 < maxNest() && rng.Intn(4) == 0 {
 			s.Subs = append(s.Subs, genStratSpec(rng, depth+1, allowDefault))
